@@ -198,9 +198,15 @@ class World(EventDispatcher):
             return False
 
         fringe = [component_type]
+        visited = set()
 
         while fringe:
             subtype = fringe.pop()
+            # With multiple inheritance a subtype is reachable through
+            # many paths, walk it once (see _get)
+            if subtype in visited:
+                continue
+            visited.add(subtype)
             fringe += type.__subclasses__(subtype)
 
             if subtype in self._entities[entity]:
@@ -271,9 +277,13 @@ class World(EventDispatcher):
             f'Entity ID must be hashble, found {entity}, which is not')
 
         fringe = [component_type]
+        visited = set()
 
         while fringe:
             subtype = fringe.pop()
+            if subtype in visited:
+                continue
+            visited.add(subtype)
 
             if subtype in self._entities.get(entity, {}):
                 return self._entities[entity][subtype]
@@ -352,9 +362,13 @@ class World(EventDispatcher):
 
         removed = None
         fringe = [component_type]
+        visited = set()
 
         while fringe:
             subtype = fringe.pop()
+            if subtype in visited:
+                continue
+            visited.add(subtype)
 
             if subtype in self._entities.get(entity, {}):
                 self._components[subtype].discard(entity)
@@ -465,9 +479,13 @@ class World(EventDispatcher):
             f'{processor_type} is not of a subtype of Processor')
 
         fringe = [processor_type]
+        visited = set()
 
         while fringe:
             subtype = fringe.pop()
+            if subtype in visited:
+                continue
+            visited.add(subtype)
 
             if subtype in self._processors:
                 removed = self._processors[subtype]
@@ -509,9 +527,13 @@ class World(EventDispatcher):
         If it exists. Subtypes are also checked.
         """
         fringe = [processor_type]
+        visited = set()
 
         while fringe:
             subtype = fringe.pop()
+            if subtype in visited:
+                continue
+            visited.add(subtype)
 
             if subtype in self._processors:
                 return self._processors[subtype]
